@@ -19,14 +19,16 @@
 (*                     was already cancelled: Conn.exec returns ctx.Err()  *)
 (*                     before anything reaches the server)                 *)
 (*   end    e h n x    that attempt returned; x = outcome class ("ok",     *)
-(*                     "canceled" = context error, or an error class); the *)
+(*                     "canceled" / "deadline" = the context's error, or   *)
+(*                     an error class); the                                *)
 (*                     attempt is added to the query's metrics (logged     *)
 (*                     inside Query.attempt, atomically with the counter)  *)
 (*   allow  e n x      RetryPolicy.Attempt(q) was asked while Attempts()=n *)
 (*                     and answered x = "yes" | "no"                       *)
 (*   decide e x y      RetryPolicy.GetRetryType(err of class y) = x in     *)
 (*                     {"retry","next","ignore","rethrow","unknown"}       *)
-(*   cancel            the caller's context is cancelled (environment)     *)
+(*   cancel x          the caller's context ends (environment): x =        *)
+(*                     "cancel" (cancelled) | "deadline" (deadline expired)*)
 (*   quiesce           harness knowledge: every live execution is parked   *)
 (*                     at a gate and nothing happened for a long time      *)
 (*   return n h x      executeQuery returned; n = identity of the attempt   *)
@@ -67,7 +69,10 @@ PolBmax(pol) ==
     [] OTHER -> 0
 
 SpecModeOf(c) == c.idem /\ c.k > 0
-IsErr(o) == o \notin {"ok", "canceled", "none"}
+\* an attempt (or executeQuery itself) answering with the context's own error: context.Canceled
+\* ("canceled") or context.DeadlineExceeded ("deadline", the caller's deadline expired)
+CtxErrs == {"canceled", "deadline"}
+IsErr(o) == o \notin ({"ok", "none"} \cup CtxErrs)
 StopDecisions == {"ignore", "rethrow", "unknown"}
 
 (***************************************************************************)
@@ -114,7 +119,7 @@ StartKeys(m, r, e, h, x, c) ==
   \cup (IF retry /\ r.out = "ok" THEN {"retry-after-success"} ELSE {})
   \cup (IF retry /\ IsErr(r.out) /\ c.pol.kind = "none" THEN {"retry-without-policy"} ELSE {})
   \* "context cancellation stops further attempts"
-  \cup (IF retry /\ r.out = "canceled" THEN {"attempt-after-cancel"} ELSE {})
+  \cup (IF retry /\ r.out \in CtxErrs THEN {"attempt-after-cancel"} ELSE {})
   \* "never exceeds what the policies allow": the policy said no / the exact numeric bound
   \cup (IF retry /\ r.alw = "no" THEN {"attempts-exceed-budget"} ELSE {})
   \cup (IF sent1 > Allowed(c, nex) THEN {"attempts-exceed-budget"} ELSE {})
@@ -137,7 +142,7 @@ ReturnKeys(m, n, h, x, c) ==
       SameIter(e) == n = -1 \/ m.x[e].ratt = n
       Match(e) == SameIter(e) /\ m.x[e].reord = h /\ m.x[e].rx = x
       \* the caller's context ended: executeQuery may answer with the context's error itself
-      ctxret == m.cancelled /\ n \in {0, -1} /\ h = 0 /\ x = "canceled" IN
+      ctxret == m.cancelled /\ n \in {0, -1} /\ h = 0 /\ x \in CtxErrs IN
   (IF m.ret THEN {"multiple-results"} ELSE {})
   \cup (IF ctxret \/ \E e \in cands : Match(e) THEN {}
         \* right Iter (or both made by the executor) but not the last attempt's error
